@@ -537,13 +537,8 @@ struct Env {
     dmaxload: Vec<usize>,            // per dispatch: largest queued + in progress over all workers right after the send
     faults_at_accept: usize,         // number of fault reports when the connection in hand was accepted
     in_hand: Option<usize>,
-    wk_at_accept: usize,
-    wk_pushed_since: usize,
-    /// connections that were accepted and never sent, found when the NEXT connection was accepted:
-    /// (cid, replacement handles queued at its accept, replacement handles pushed since then (at that time), faults reported by then)
-    pending_drops: Vec<(usize, usize, usize, usize)>,
-    wk_pushed_total: usize,
-    wk_total_at_accept: usize,
+    handles_at_turn: usize,
+    faults_at_turn: usize,
     points: Vec<(String, usize)>,
     anchored: Vec<(String, usize, Act, bool)>, // kind, nth (1-based, per iteration), action, fired
     point_counts: HashMap<String, usize>,
@@ -778,8 +773,6 @@ impl Env {
                     stop_reply_at: -1,
                 };
                 self.wq.wake(WakerInterest::Worker(handle));
-                self.wk_pushed_since += 1;
-                self.wk_pushed_total += 1;
             }
             Act::Pause => self.wq.wake(WakerInterest::Pause),
             Act::Resume => self.wq.wake(WakerInterest::Resume),
@@ -953,9 +946,16 @@ impl Env {
     }
 
     fn on_point(&mut self, kind: &'static str, arg: usize) {
+        // (the "turn" point carries the number of handles in its upper bits; the recorded argument is `next` as before)
+        let turn_handles = arg >> 16;
+        let arg = if kind == "turn" { arg & 0xffff } else { arg };
         self.points.push((kind.to_string(), arg));
         match kind {
             "turn" => {
+                // handles in the rotation / faults reported so far, at the last turn of the connection in hand
+                self.collect_faults();
+                self.handles_at_turn = turn_handles;
+                self.faults_at_turn = self.faults.len();
                 self.turns += 1;
                 if self.turns > self.max_turns {
                     panic!("verif-spin: accept_one loop turned {} times without dispatching", self.turns);
@@ -1101,11 +1101,8 @@ impl Sim {
             davail: vec![],
             faults_at_accept: 0,
             in_hand: None,
-            wk_at_accept: 0,
-            wk_pushed_since: 0,
-            pending_drops: vec![],
-            wk_pushed_total: 0,
-            wk_total_at_accept: 0,
+            handles_at_turn: 0,
+            faults_at_turn: 0,
             points: vec![],
             anchored: vec![],
             point_counts: HashMap::new(),
@@ -1215,19 +1212,15 @@ impl Sim {
                 let cid = e.cid_of_peer(&peer);
                 if cid >= 0 {
                     if let Some(prev) = e.in_hand.take() {
-                        // the previous connection was accepted and never sent: the accept thread dropped it.  Whether a
-                        // handle was left at that moment is worked out at the end of the iteration
+                        // the previous connection was accepted and never sent: the accept thread dropped it.  A handle was
+                        // left at that moment unless every handle counted at its last turn has been reported faulted since
                         e.collect_faults();
-                        let rec = (prev, e.wk_at_accept, e.wk_total_at_accept, e.faults.len());
-                        e.pending_drops.push(rec);
+                        let removed = e.faults.len().saturating_sub(e.faults_at_turn);
+                        let no_handle = e.handles_at_turn <= removed;
+                        e.dropped.push((prev, no_handle));
                     }
                     e.accepted.push(cid as usize);
                     e.in_hand = Some(cid as usize);
-                    e.wk_total_at_accept = e.wk_pushed_total;
-                    // replacement handles still waiting in the waker queue while this connection is in hand
-                    let n = e.wq.guard().iter().filter(|i| matches!(i, WakerInterest::Worker(_))).count();
-                    e.wk_at_accept = n;
-                    e.wk_pushed_since = 0;
                 }
             }))
         });
@@ -1262,26 +1255,12 @@ impl Sim {
             Ok(e) => e,
             Err(_) => return 0, // a panic unwound through the callback while env was borrowed
         };
-        // connections accepted and never sent.  Handles at the moment of a drop = handles now - (replacement handles the
-        // accept thread took off the waker queue after that connection was accepted: no waker handling happens between an
-        // accept and the end of accept_one) + (handles removed by faults found after the drop)
+        // a connection accepted and never sent (see the accepted callback for the rule)
         if let Some(cid) = e.in_hand.take() {
             e.collect_faults();
-            let rec = (cid, e.wk_at_accept, e.wk_total_at_accept, e.faults.len());
-            e.pending_drops.push(rec);
-        }
-        if !e.pending_drops.is_empty() {
-            let wk_now = e.wq.guard().iter().filter(|i| matches!(i, WakerInterest::Worker(_))).count();
-            let handles_now = self.st.snapshot(e.cfg.workers).handles.len() as i64;
-            let faults_now = e.faults.len() as i64;
-            let pushed_total = e.wk_pushed_total;
-            let pend: Vec<_> = e.pending_drops.drain(..).collect();
-            for (cid, wk_at, total_at, faults_then) in pend {
-                let popped_after = (wk_at + (pushed_total - total_at)) as i64 - wk_now as i64;
-                let removed_after = faults_now - faults_then as i64;
-                let handles_at_drop = handles_now - popped_after.max(0) + removed_after.max(0);
-                e.dropped.push((cid, handles_at_drop <= 0));
-            }
+            let removed = e.faults.len().saturating_sub(e.faults_at_turn);
+            let no_handle = e.handles_at_turn <= removed;
+            e.dropped.push((cid, no_handle));
         }
         let missed: Vec<(usize, Act)> = e
             .anchored
